@@ -2,7 +2,9 @@ package main
 
 import (
 	"fmt"
+	"os"
 	"sort"
+	"time"
 )
 
 // recordBoundaries returns the absolute end offsets of the records of a valid file.
@@ -115,17 +117,17 @@ func runC11(c *Ctx) {
 	}
 	frameMC(c)
 	rng := newRng(c.Seed)
-	pool := validPool(p, sch, rng, c.pick(900, 6000), c.pick(8, 30))
+	pool := validPool(p, sch, rng, c.pick(900, 2500), c.pick(8, 16))
 	// chains of two and three
 	var streams [][]byte
 	streams = append(streams, pool...)
-	for i := 0; i < c.pick(6, 30); i++ {
+	for i := 0; i < c.pick(6, 12); i++ {
 		a, b := pool[rng.Intn(len(pool))], pool[rng.Intn(len(pool))]
 		ch := append(append([]byte{}, a...), b...)
 		if i%3 == 0 {
 			ch = append(ch, pool[rng.Intn(len(pool))]...)
 		}
-		if len(ch) < 12000 {
+		if len(ch) < c.pick(12000, 5000) {
 			streams = append(streams, ch)
 		}
 	}
@@ -151,14 +153,43 @@ func runC11(c *Ctx) {
 	var calls []*Call
 	id := 0
 	noffsets := 0
+	// calls are validated and dropped in batches: the thorough tier records
+	// several hundred thousand calls (inputs, read logs, projections)
+	ncalls := 0
+	var sampleCall *Call
+	flush := func() {
+		if len(calls) == 0 {
+			return
+		}
+		mm := c.validateCalls(p, sch, calls, 14)
+		// everything the Contract can say about a cut or faulted stream is C11's business
+		c.reportFamily(p, mm, func(m Mismatch) bool {
+			switch str(m.Rec["what"]) {
+			case "slot count", "missing message", "no file returned", "chain length", "unknown message counts", "unknown field counts":
+				return true
+			}
+			return false
+		})
+		c.verdictStats(calls)
+		ncalls += len(calls)
+		fmt.Fprintf(os.Stderr, "C11: %d calls validated (%.0f s)\n", ncalls, time.Since(c.Start).Seconds())
+		if sampleCall == nil {
+			sampleCall = calls[len(calls)/2]
+			sampleCall = &Call{Note: sampleCall.Note, Ret: CallRet{Err: sampleCall.Ret.Err}, Final: sampleCall.Final, Why: sampleCall.Why}
+		}
+		calls = nil
+	}
 	for si, b := range streams {
+		if len(calls) > 25000 {
+			flush()
+		}
 		var offs []int
-		if len(b) <= c.pick(200, 4096) {
+		if len(b) <= c.pick(200, 400) {
 			for o := 0; o <= len(b); o++ {
 				offs = append(offs, o)
 			}
 		} else {
-			offs = interestingOffsets(c, b, c.pick(10, 200))
+			offs = interestingOffsets(c, b, c.pick(10, 100))
 		}
 		chained := si >= len(pool)
 		apis := []string{"decode", "integrity", "chained"}
@@ -166,6 +197,9 @@ func runC11(c *Ctx) {
 			apis = []string{"chained"}
 		}
 		for _, o := range offs {
+			if len(calls) > 20000 {
+				flush()
+			}
 			noffsets++
 			for kind := 0; kind < 4; kind++ {
 				rs := readScript{cut: -1, fault: -1}
@@ -201,21 +235,14 @@ func runC11(c *Ctx) {
 			}
 		}
 	}
-	mm := c.validateCalls(p, sch, calls, 14)
-	// everything the Contract can say about a cut or faulted stream is C11's business
-	c.reportFamily(p, mm, func(m Mismatch) bool {
-		switch str(m.Rec["what"]) {
-		case "slot count", "missing message", "no file returned", "chain length", "unknown message counts", "unknown field counts":
-			return true
-		}
-		return false
-	})
-	c.verdictStats(calls)
+	flush()
 	c.Cov["streams"] = len(streams)
 	c.Cov["offsets"] = noffsets
-	c.Cov["evaluations"] = len(calls)
+	c.Cov["evaluations"] = ncalls
 	c.Cov["distinct_nontrivial"] = noffsets
 	c.Cov["rule"] = "valid single and chained streams x cut / fault offsets (every offset for short streams; header, record boundaries +-1, buffer boundaries +-1, CRC bytes and a seeded sample otherwise) x {clean EOF, fault, last bytes together with EOF, last bytes together with the fault} x entry points; distinct = (stream, offset) pairs"
-	c.sample(map[string]interface{}{"kind": "call", "note": calls[len(calls)/2].Note, "err": calls[len(calls)/2].Ret.Err, "contract": calls[len(calls)/2].Final + ": " + calls[len(calls)/2].Why})
+	if sampleCall != nil {
+		c.sample(map[string]interface{}{"kind": "call", "note": sampleCall.Note, "err": sampleCall.Ret.Err, "contract": sampleCall.Final + ": " + sampleCall.Why})
+	}
 	c.finish()
 }
